@@ -806,7 +806,8 @@ class SP(Robot):
         #We will here assume that the wrench is in the local frame of the top platform.
         wrench = twrench.copy()
         wrench = wrench + fsr.makeWrench(tm(), self._top_plate_mass, self.grav)
-        wrench_local_frame = fsr.transformWrenchFrame(wrench, self.getTopT(), self.getBottomT())
+        wrench = fsr.transformWrenchFrame(wrench, self.getTopT(), self.getBottomT())
+        wrench_local_frame = wrench
         for i in range(6):
             wrench_local_frame += fsr.makeWrench(fsr.globalToLocal(self.getBottomT(), 
                     self.getActuatorLoc(i, 't')), self._act_shaft_mass, self.grav, self.getBottomT())
